@@ -90,6 +90,7 @@ type x10Pipe struct {
 	getNextIsPlusOne       bool
 	releaseAfterSend       bool
 	popsBothHeads          bool
+	sendErrDiscarded       bool
 	sendsAfterEveryReceive bool
 	drainsOnFini           bool
 	deferCloseDone         bool
@@ -158,7 +159,10 @@ func extractPipeCfg(x *extractor) {
 	u.pf("def newOrderIDPreIncrements : Bool := %s\n", leanBool(p.newOrderIDPreIncr))
 	u.pf("def getNextOrderIDIsCountPlusOne : Bool := %s\n", leanBool(p.getNextIsPlusOne))
 	u.pf("def maybeSendPopsBothHeads : Bool := %s\n", leanBool(p.popsBothHeads))
-	u.pf("def releaseAfterSend : Bool := %s\n\n", leanBool(p.releaseAfterSend))
+	u.pf("def releaseAfterSend : Bool := %s\n", leanBool(p.releaseAfterSend))
+	u.pf("-- maybeSendPackets calls s.sender.sendPacket(…) as a statement: its error result is not looked at, the heads are\n")
+	u.pf("-- popped regardless (so the model's send step is faithful only if sendPacket itself never drops a packet)\n")
+	u.pf("def sendErrorDiscarded : Bool := %s\n\n", leanBool(p.sendErrDiscarded))
 
 	x10ServeLoop(pi, u, "Server.Serve", "svr", "OS")
 	x10ServeLoop(pi, u, "RequestServer.serveLoop", "rs", "RS")
@@ -628,11 +632,14 @@ func x10MaybeSend(pi *pkgInfo, u *unit, p *x10Pipe) {
 	var rest []string
 	for i, t := range texts {
 		switch t {
-		case send:
+		case send, "_ = " + send:
+			// an expression statement (or an assignment to blank): the error result of sendPacket is discarded, the
+			// heads are popped whether or not the response reached the wire
 			if sendIdx >= 0 {
 				bad("two sendPacket calls", sendBody[0])
 			}
 			sendIdx = i
+			p.sendErrDiscarded = true
 		case release:
 			relIdx = i
 		default:
@@ -640,6 +647,14 @@ func x10MaybeSend(pi *pkgInfo, u *unit, p *x10Pipe) {
 		}
 	}
 	if sendIdx < 0 {
+		for i, t := range texts {
+			if strings.Contains(t, send) {
+				// the call is there but its result is used (if err := …; err != nil {…}, err := …): the pipeline model
+				// (Model/Pipe.lean) has no failed-send transition, so this shape is not accepted
+				bad("the result of s.sender.sendPacket is used, the model's send step is unconditional: "+t, sendBody[i])
+				return
+			}
+		}
 		bad("s.sender.sendPacket(out.(encoding.BinaryMarshaler)) not found in the send block", body[3])
 		return
 	}
